@@ -29,7 +29,7 @@ def show_ops(ops):
             out.append(f"SLEEP({o[1]})")
         elif o[0] == "HIDE":
             out.append(f"HIDE(seg#{o[1]},t{o[2]})")
-        elif o[0] in ("BGC", "JOINC", "JOIN", "SETTLE", "UNHIDE", "CSNAP", "DRAIN"):
+        elif o[0] in ("BGC", "JOINC", "JOIN", "SETTLE", "UNHIDE", "CSNAP", "DRAIN", "KR"):
             out.append(o[0])
         elif o[0] == "WAITMORE":
             out.append(f"WAITMORE({o[1]},{o[2]})")
